@@ -92,7 +92,7 @@ TABLE = {
     "color_values": ("local", {}, [("color_key", {"c2": "black"}), ("alpha", {"alpha": 100}), SEED]),
     # ---- heavier to JIT
     "polygonize": ("poly", {}, [("connectivity", {"connectivity": 8}), ("transform", {"transform": [10.0, 2.0, 0.0, 5.0, 0.0, 2.0]}),
-                                SEED, INT]),
+                                SEED]),      # int vs float rasters (type-generated comparison): the thorough alphabet
     "polygonize_mask": ("poly", {}, [SEED]),
     "summarize_terrain": ("poly", {}, [SEED]),
     "canvas_like": ("poly", {}, [("width", {"width": 5}), ("height", {"height": 3}), ("x_range", {"x_range": [10.0, 18.0]}),
@@ -117,7 +117,6 @@ THREAD_CALLS = [("zonal_stats", {}, "float64", "numpy", [160, 176]), ("zonal_sta
                 ("focal_stats", dict(K5, stats=["mean", "sum", "std", "var"]), "float32", "numpy", [160, 176]),
                 ("focal_apply", dict(K5), "float32", "numpy", [160, 176]), ("hotspots", dict(K5), "float32", "numpy", [160, 176]),
                 ("convolution_2d", dict(K5), "float32", "numpy", [160, 176]), ("focal_mean", {}, "float64", "numpy", [160, 176]),
-                ("local_cell_stats", {"func": "mean"}, "float64", "numpy", [160, 176]),
                 ("true_color", {}, "float32", "numpy", [160, 176]),
                 ("focal_apply", {}, "float32", "dask", [40, 48]), ("zonal_stats", {}, "float64", "dask", [40, 48]),
                 ("hotspots", {}, "float32", "dask", [40, 48])]
@@ -160,13 +159,16 @@ def entries(tier):
 
 # functions whose JIT compilation is expensive (a closure re-compiled on every call, many kernels): they are compiled in two
 # processes only (P1 / P2); every other function gets a strict first-call reference for every variation (R_k processes)
-EXPENSIVE = {"proximity", "allocation", "direction", "polygonize", "polygonize_mask", "focal_stats", "viewshed"}
+EXPENSIVE = {"proximity", "allocation", "direction", "polygonize", "polygonize_mask", "focal_stats", "viewshed",
+             "regions", "a_star_search", "canvas_like"}
 
 
 JIT_COST = {"proximity": 1.3, "allocation": 1.3, "direction": 1.3, "polygonize": 5.0, "polygonize_mask": 2.5, "focal_stats": 2.5,
             "viewshed": 22.0, "canvas_like": 1.5, "summarize_terrain": 1.2, "regions": 1.8, "a_star_search": 1.0,
             "generate_terrain": 1.3, "perlin": 1.0, "focal_apply": 1.0}
-PER_CALL = {"proximity": 1.0, "allocation": 1.0, "direction": 1.0}     # a closure is re-JITted on every call
+# seconds per CALL (not per first call): proximity re-JITs a closure on every call, generate_terrain draws 16 permutations
+# of 2^20 elements.  These functions get the compact schedules (see `schedules`).
+PER_CALL = {"proximity": 1.3, "allocation": 1.1, "direction": 1.1, "generate_terrain": 1.3}
 
 
 def schedules(ents, nproc=11):
@@ -188,23 +190,28 @@ def schedules(ents, nproc=11):
         base, vs = es[0], es[1:]
         jit = JIT_COST.get(f, 0.6)
         per = PER_CALL.get(f, 0.03)
-        p1 = [base]
-        for v in vs:
-            p1 += [v, base]
+        compact = f in PER_CALL               # expensive per call: base, v1, ..., vn, base  /  vk, base  /  v1, ..., vn, base
+        if compact:
+            p1 = [base] + vs + [base]
+        else:
+            p1 = [base]
+            for v in vs:
+                p1 += [v, base]
         units.append((jit + per * len(p1), f, p1, {base["c"]}))
         if f in EXPENSIVE:
-            p2 = vs + [base] + vs
+            p2 = vs + [base] + ([] if compact else vs)
             units.append((jit + per * len(p2), f, p2, {v["c"] for v in vs}))
             continue
-        name = next((v for v in vs if v["p"] == "name"), None)
-        has_seed = any(v["p"] == "@seed" for v in vs)
+        # the variations of the raster argument itself and of `name` share ONE unit:
+        # v_shape, v_name, v_seed, base, v_seed, v_name, v_shape  (each differs from its predecessors in two parameters)
+        rasterish = [v for p_ in ("@shape", "name", "@seed") for v in vs if v["p"] == p_]
+        if len(rasterish) > 1:
+            calls = rasterish + [base] + ([] if compact else list(reversed(rasterish)))
+            units.append((jit + per * len(calls), f, calls, {v["c"] for v in rasterish}))
         for v in vs:
-            if v["p"] == "name" and has_seed:
+            if len(rasterish) > 1 and v in rasterish:
                 continue
-            if v["p"] == "@seed" and name is not None:
-                units.append((jit + per * 5, f, [name, v, base, v, name], {v["c"], name["c"]}))
-            else:
-                units.append((jit + per * 3, f, [v, base, v], {v["c"]}))
+            units.append((jit + per * 3, f, [v, base] if compact else [v, base, v], {v["c"]}))
     units.sort(key=lambda u: (-u[0], u[1]))
     procs = [[] for _ in range(nproc)]
     load = [0.0] * nproc
@@ -237,9 +244,8 @@ def joint_entries():
     """Dask results of ONE function for rasters of equal shape / chunks but different coordinates (and one different
     parameter), first computed separately, then TOGETHER (dask.compute(r1, r2)): -> list of calls of one history"""
     out = []
-    for f, params, var in (("proximity", {}, {"max_distance": 4.5}), ("direction", {}, None), ("allocation", {}, None),
-                           ("slope", {}, None), ("focal_mean", {}, {"passes": 2}), ("convolution_2d", {}, {"kernel": "circle5"}),
-                           ("hotspots", {}, None), ("hillshade", {}, {"azimuth": 100})):
+    for f, params, var in (("proximity", {}, {"max_distance": 4.5}), ("direction", {}, None),
+                           ("slope", {}, None), ("focal_mean", {}, {"passes": 2}), ("convolution_2d", {}, {"kernel": "circle5"})):
         a = {"c": "%s|joint_a|f8d" % f, "f": f, "p": "joint_a", "sig": "f8d", "params": dict(params), "coordscale": 1}
         b = {"c": "%s|joint_b|f8d" % f, "f": f, "p": "joint_b", "sig": "f8d", "params": dict(params), "coordscale": 3}
         calls = [a, b]
@@ -254,3 +260,62 @@ def joint_entries():
         last = dict(calls[-1], joint=[e["c"] for e in calls[:-1]])
         out.append(last)
     return out
+
+
+# ----------------------------------------------------------------------------- sessions that REUSE objects
+# The histories above rebuild the inputs of every call.  A session of a user keeps objects: ONE kernel array handed to
+# several tools, ONE raster / surface DataArray queried again and again.  Hidden state may hang on those objects (memo keyed
+# on object identity, arguments or attrs edited in place by an earlier tool).  Reference of every call: the same call in a
+# process where every call gets freshly built (equal valued) objects.
+SHARED_KERNEL = {"id": "K", "ctor": ["circle_kernel", [1, 1, 1]]}          # the library's own float 3 x 3 cross
+
+
+def shared_alphabet():
+    out = []
+
+    def add(f, p, sig, params, share, **kw):
+        c = "%s|%s|%s" % (f, p, sig)
+        e = {"c": c, "f": f, "p": p, "sig": sig, "eff": c, "params": params, "dtype": "float64", "backend": "numpy",
+             "layout": "C", "seed": 0, "finite": True, "hw": None, "group": "shared", "cost": 1.0, "share": share,
+             "caller_writes": False}
+        e.update(kw)
+        out.append(e)
+    # one float kernel object shared by its consumers, on one raster object
+    for f, params in (("hotspots", {}), ("focal_stats", {"stats": ["mean", "sum"]}), ("focal_apply", {}), ("convolution_2d", {})):
+        add(f, "shK", "f8", params, "R", shared_kernel=SHARED_KERNEL)
+    # a lazy Dask convolution built now, computed when the session ends (its graph holds the kernel object)
+    add("convolution_2d", "shKlazy", "f8d", {}, "Rd", shared_kernel=SHARED_KERNEL, backend="dask", defer=True)
+    # one raster with a non-metre `unit` and float cell sizes (attrs family 6, coordinate spacing 0.5)
+    for f, params in (("calc_cellsize", {}), ("slope", {}), ("curvature", {}), ("hillshade", {}), ("get_dataarray_resolution", {}),
+                      ("calc_res", {}), ("get_xy_range", {}), ("canvas_like", {})):
+        add(f, "shU", "f8", params, "U", attrs_family=6, coordscale=0.25)
+    # one surface object (open ground with a full wall in column 3): a query that finds NO route, then solvable ones that
+    # cross the cells the failed query closed
+    for p, params in (("fail", {"sy": 0, "sx": 0, "gy": 0, "gx": 6, "barriers": [9]}),
+                      ("ok1", {"sy": 0, "sx": 0, "gy": 5, "gx": 2, "barriers": [9]}),
+                      ("ok2", {"sy": 5, "sx": 0, "gy": 0, "gx": 2, "barriers": [9]}),
+                      ("open", {"sy": 0, "sx": 0, "gy": 5, "gx": 6})):
+        add("a_star_search", "sh_" + p, "f8", dict(params, _kind="maze"), "S")
+    return out
+
+
+def shared_sessions(al):
+    """designed sessions (every consumer before and after the suspect tool): -> list of call lists"""
+    by = {e["c"]: e for e in al}
+    k = ["convolution_2d|shKlazy|f8d", "convolution_2d|shK|f8", "focal_stats|shK|f8", "focal_apply|shK|f8", "hotspots|shK|f8",
+         "convolution_2d|shK|f8", "focal_stats|shK|f8", "focal_apply|shK|f8", "hotspots|shK|f8"]
+    u = ["slope|shU|f8", "curvature|shU|f8", "get_dataarray_resolution|shU|f8", "calc_cellsize|shU|f8", "calc_cellsize|shU|f8",
+         "slope|shU|f8", "curvature|shU|f8", "hillshade|shU|f8", "calc_res|shU|f8", "get_xy_range|shU|f8", "canvas_like|shU|f8",
+         "get_dataarray_resolution|shU|f8", "calc_cellsize|shU|f8"]
+    s = ["a_star_search|sh_ok1|f8", "a_star_search|sh_fail|f8", "a_star_search|sh_ok1|f8", "a_star_search|sh_ok2|f8",
+         "a_star_search|sh_open|f8", "a_star_search|sh_fail|f8", "a_star_search|sh_ok2|f8", "a_star_search|sh_open|f8"]
+    return [[by[c] for c in k + u + s]]
+
+
+def unshared(e, n):
+    """the same call with freshly built objects (reference)"""
+    r = dict(e)
+    r.pop("share", None)
+    if r.get("shared_kernel"):
+        r["shared_kernel"] = dict(r["shared_kernel"], id="K#%d" % n)
+    return r
